@@ -390,6 +390,8 @@ def run_model(lines_per_case: list[tuple[str, list[str]]]) -> dict[str, list[str
     for t in ths:
         t.join()
     for (p, expect, _), (so, se) in zip(procs, outs):
+        if so and not so.endswith("\n"):         # the driver was killed in the middle of a line: a partial answer is no answer
+            so = so[:so.rfind("\n") + 1]
         lines = so.splitlines()
         pos = 0
         for cid, k in expect:
